@@ -58,6 +58,10 @@ func ZeroValueOf(typeExpr ast.Expr, typ types.Type) ast.Expr {
 		case info&types.IsBoolean != 0:
 			zv = &ast.Ident{Name: "false"}
 		}
+		if zv == nil {
+			// complex numbers, unsafe.Pointer, untyped nil: no literal known.
+			return nil
+		}
 		if isDefaultLiteralType(typ) {
 			return zv
 		}
